@@ -49,6 +49,11 @@ Theorem C13_overflow_report : forall m id w acc l,
 Proof. exact chain_overflow_report. Qed.
 Print Assumptions C13_overflow_report.
 
+(* an overflow met while building a chain stays reported however many members are added afterwards *)
+Theorem C13_overflow_sticky : forall m l acc e, build_error acc = Some e -> build_error (chain_from m acc l) = Some e.
+Proof. exact chain_error_sticky. Qed.
+Print Assumptions C13_overflow_sticky.
+
 Example C13_example :
   let t := Node (Node (Leaf 0 1) (Leaf 1 0)) (Node (Leaf 2 3) (Leaf 0 4)) in
   prob (delegate t) (is_id 0) == 5 # 8 /\ prob (delegate t) (is_id 1) == 0 /\ prob (delegate t) (is_id 2) == 3 # 8.
